@@ -751,22 +751,68 @@ fn background(which: usize, len: usize) -> Vec<u8> {
         .collect()
 }
 
-/// Lengths 4..=64: every (position, byte value) over three backgrounds; each background once,
-/// each single-byte variant once (the value equal to the background byte is the background).
-fn b64_long() -> B64Out {
-    (4usize..=64)
-        .into_par_iter()
-        .map(|len| {
+/// Whether `s` is produced from background `bg` by the enumeration below (the background itself,
+/// one byte changed, or two adjacent bytes both changed).
+fn reach(bg: &[u8], s: &[u8]) -> bool {
+    let mut d = [0usize; 2];
+    let mut n = 0;
+    for i in 0..s.len() {
+        if s[i] != bg[i] {
+            if n == 2 {
+                return false;
+            }
+            d[n] = i;
+            n += 1;
+        }
+    }
+    n <= 1 || d[1] == d[0] + 1
+}
+
+/// Lengths 4..=64 over three backgrounds: every (position, byte value), and — for lengths up to
+/// `pair_max_len` — every pair of values at every two adjacent positions (each output character
+/// of base64 depends on at most two adjacent input bytes). Every input is generated exactly
+/// once: a variant equal to the background, to a single-byte variant or to a variant of an
+/// earlier background is skipped.
+fn b64_long(pair_max_len: usize) -> B64Out {
+    let mut tasks: Vec<(usize, usize, usize)> = vec![];
+    for len in 4usize..=64 {
+        for which in 0..3 {
+            for pos in 0..len {
+                tasks.push((len, which, pos));
+            }
+        }
+    }
+    tasks
+        .par_iter()
+        .map(|&(len, which, pos)| {
             let mut o = B64Out::default();
-            for which in 0..3 {
-                let bg = background(which, len);
+            let bg = background(which, len);
+            let earlier: Vec<Vec<u8>> = (0..which).map(|w| background(w, len)).collect();
+            let fresh = |s: &[u8]| !earlier.iter().any(|b| reach(b, s));
+            if pos == 0 && fresh(&bg) {
                 o.one(&bg);
-                for pos in 0..len {
-                    for v in 0..=255u8 {
-                        if v != bg[pos] {
-                            let mut s = bg.clone();
-                            s[pos] = v;
-                            o.one(&s);
+            }
+            let mut s = bg.clone();
+            for v in 0..=255u8 {
+                if v != bg[pos] {
+                    s[pos] = v;
+                    if fresh(&s) {
+                        o.one(&s);
+                    }
+                }
+            }
+            if pos + 1 < len && len <= pair_max_len {
+                for a in 0..=255u8 {
+                    if a == bg[pos] {
+                        continue;
+                    }
+                    s[pos] = a;
+                    for b in 0..=255u8 {
+                        if b != bg[pos + 1] {
+                            s[pos + 1] = b;
+                            if fresh(&s) {
+                                o.one(&s);
+                            }
                         }
                     }
                 }
@@ -805,7 +851,7 @@ fn main() {
     main_with(
         "C18",
         "exploration",
-        "stateless exhaustive enumeration on the real webauthn-verifier / ed25519-verifier example contracts and base64_url_encode: for each of 4 fixed (key, payload) pairs a genuine assertion made in the harness (p256 low-S ECDSA / ed25519-dalek, sha2, base64 crate; four clientDataJSON layouts, four authenticator-data shapes) must be accepted; all 256 flag bytes (re-signed) accepted iff UP & UV & !(BS & !BE); every single-bit flip of signature (512), public key (520), authenticator data, payload (256) and of clientDataJSON (quick: one bit per byte position, thorough: every bit), re-signed bit flips inside the type (96) and challenge (344) values, 9 type strings, 9 challenge encodings (other payload, padded, standard alphabet, ...), missing fields, wrong signer, high-S twin, truncated payload / key data must be rejected; clientDataJSON padded three ways to every length 1000..=1030 accepted iff <= 1024; authenticator data of every length 0..=40 and 64 accepted iff >= 37; ed25519: genuine accepted, every bit flip of signature / key / payload, wrong signer, other payload, other payload lengths rejected; base64url = RFC 4648 section 5 unpadded (base64 crate) for all byte strings of length 0..=3 (quick: length 3 with 16 first bytes) and for lengths 4..=64 every (position, byte value) over three backgrounds. distinct = distinct input tuples handed to the implementation (sha-256 of the inputs, measured); non-trivial = distinct verifier inputs plus distinct non-empty encoder inputs",
+        "stateless exhaustive enumeration on the real webauthn-verifier / ed25519-verifier example contracts and base64_url_encode: for each of 4 fixed (key, payload) pairs a genuine assertion made in the harness (p256 low-S ECDSA / ed25519-dalek, sha2, base64 crate; four clientDataJSON layouts, four authenticator-data shapes) must be accepted; all 256 flag bytes (re-signed) accepted iff UP & UV & !(BS & !BE); every single-bit flip of signature (512), public key (520), authenticator data, payload (256) and of clientDataJSON (quick: one bit per byte position, thorough: every bit), re-signed bit flips inside the type (96) and challenge (344) values, 9 type strings, 9 challenge encodings (other payload, padded, standard alphabet, ...), missing fields, wrong signer, high-S twin, truncated payload / key data must be rejected; clientDataJSON padded three ways to every length 1000..=1030 accepted iff <= 1024; authenticator data of every length 0..=40 and 64 accepted iff >= 37; ed25519: genuine accepted, every bit flip of signature / key / payload, wrong signer, other payload, other payload lengths rejected; base64url = RFC 4648 section 5 unpadded (base64 crate) for all byte strings of length 0..=3 (quick: length 3 with 16 first bytes) and for lengths 4..=64 every (position, byte value) plus (lengths <= 8 quick, <= 64 thorough) every pair of values at two adjacent positions, over three backgrounds, each input generated once. distinct = distinct input tuples handed to the implementation (sha-256 of the inputs, measured); non-trivial = distinct verifier inputs plus distinct non-empty encoder inputs",
         |tier, runner| {
             if let Some(case) = runner.replay_case(WORLD) {
                 println!("replaying case {case}");
@@ -876,7 +922,7 @@ fn main() {
 
             // ---- base64url
             let short = b64_short(tier);
-            let long = b64_long();
+            let long = b64_long(tier.pick(8, 64));
             for (kind, o) in [("b64-len0-3", &short), ("b64-len4-64", &long)] {
                 let bad = o.bad.is_some() as u64;
                 let e = stats.ops.entry(kind.to_string()).or_default();
